@@ -48,14 +48,14 @@ CLAIMED = {
         technique="deterministic simulation: option-matrix cells executed through the real sampler entry points and complete driver.afqmc runs on a simulated communicator; same run repeated under different seeded schedules / eager-rendezvous patterns / clock-jump plans, on not_a_comm and in a fresh interpreter under another hash seed; replay model and estimator definition as oracles",
         text=(
             "Seeded exploration of the option matrix ad_mode x orbital_rotation x do_sr x walker_type x n_batch x block/step counts with a "
-            "trial converged by the library's own optimiser: (cross) plain vs each AD entry point called through jvp/vjp as the driver "
+            "trial converged by an independent NumPy Hartree-Fock solver (stable under the library's plain Roothaan iteration; in part of the UHF cells a symmetry-broken solution with a spin-averaged, i.e. approximate, rdm1 input): (cross) plain vs each AD entry point called through jvp/vjp as the driver "
             "does, both against a step-by-step replay model and, for a single energy block, against the weight-averaged capped real "
             "local energy recomputed from the measured population; (batch) two batch counts; (driver) complete driver.afqmc runs on 1-3 "
             "simulated ranks executed twice under different PRNG-chosen schedules, eager/rendezvous patterns and clock-jump plans, on "
             "config.not_a_comm for one rank, and in a fresh interpreter with another PYTHONHASHSEED - samples_raw.dat bytes and returned "
             "energies must be identical. Any exception from an entry point or option combination is a violation (callable clause)."
         ),
-        note="Trusts JAX/XLA determinism on single-threaded CPU, jax.random, the replay model; cells where the library's SCF does not reach a fixed point are skipped and counted; 2rdm mode is not exercised.",
+        note="Trusts JAX/XLA determinism on single-threaded CPU, jax.random, the replay model; cells where the independent SCF does not converge to a solution that is stable under the plain Roothaan iteration are skipped and counted; 2rdm mode only in the driver cells (complete one in the thorough menu only).",
         design_ref="DESIGN.md section 5, C12",
     ),
     "C14": dict(
@@ -143,7 +143,7 @@ CLAIMED = {
             "schedules and injected field tails: a harness propagator records max |E_local - E0| over live walkers at every propagate entry inside the "
             "compiled loops, and every row of samples_raw.dat with non-zero weight and the returned energy equal E0."
         ),
-        note="Fock engine ground energy is cross-checked against pyscf FCI in the pyscf-route runs; full determinant lists only (compiled shapes independent of the reference); restricted walkers with any reference determinant of a closed-shell sector; blocks with extinct population (weight 0) have no energy and are counted, not compared.",
+        note="Fock engine ground energy is cross-checked against pyscf FCI in the pyscf-route runs; full determinant lists only (compiled shapes independent of the reference); in half of the dictionary-route runs the same dictionary has been assembled once before (the trial comes from the second assembly); restricted walkers with any reference determinant of a closed-shell sector; blocks with extinct population (weight 0) have no energy and are counted, not compared.",
         design_ref="DESIGN.md section 5, C11",
     ),
 }
